@@ -58,6 +58,8 @@ SUM = {
  "C12r2-B": ("AdaptiveBalance.reset re-initialises only the scaling", "use with an affine stage, reset, then non-affine stages"),
  "C15r2-A": ("gauss() memoised with lru_cache and gauss_reference_cell normalises its weights in place", "unit-cell variant requested before the reference variant for one (dim, order)"),
  "C15r2-B": ("one sign in the 3-D 27-point node table (node 19)", "dim 3, order 2 / 'max', integrands depending on the second coordinate"),
+ "C18-A": ("imread_from_npz drops the stored relative times whenever metadata['date'] is not None", "series with relative times but no dates (date defaults to [None, ...]); dates plus custom times"),
+ "C18-B": ("DriftCorrection.return_config stores the ROI as corner points instead of slices", "a ROI together with padding != 0 (padding applied again on load)"),
  "C06r2-A": ("FVDivergence caches the assembled matrix per grid SHAPE (class-level dict)", "a second operator for a grid of the same shape but other voxel sizes in the same process"),
  "C06r2-B": ("FVTangentialFaceReconstruction.__call__ flattens the stacked components in F order", "3-D grid and concatenate=True"),
  "C07r2-A": ("face numbering offset derived from the previous axis' max face index", "3-D shapes with a single-cell middle axis, e.g. (2,1,2)"),
